@@ -39,6 +39,61 @@ def gen_libio():
     first = body[0] if body else None
     requires_model = (isinstance(first, ast.If) and ast.unparse(first.test) == "self.model is None"
                       and len(first.body) == 1 and isinstance(first.body[0], ast.Raise) and not first.orelse)
+    # the recognised current disciplines are pinned statement by statement: anything added around them (a cache of mapped
+    # libraries, a table shared by all instances, an early return) is outside the model
+    def strip_verbose(node):
+        class V(ast.NodeTransformer):
+            def visit_If(self, n):
+                self.generic_visit(n)
+                if ast.unparse(n.test).startswith("verbose"):
+                    return None
+                return n
+
+            def visit_Expr(self, n):
+                if isinstance(n.value, ast.Call) and ast.unparse(n.value.func) == "print":
+                    return None
+                return n
+        return V().visit(node)
+    if ld == "PrivateCopy":
+        lnode = _method(mod, "CompiledLogicNet", "load")
+        got = [ast.unparse(st) for st in lnode.body if not (isinstance(st, ast.Expr) and isinstance(st.value, ast.Constant))]
+        exp = ["self = CompiledLogicNet(None, num_bits=num_bits)", "self.input_shape = input_shape", "self.num_classes = num_classes",
+               "self._loaded_output_size = output_size",
+               "with tempfile.NamedTemporaryFile(suffix='.so') as private_copy:\n    shutil.copy(save_lib_path, private_copy.name)\n"
+               "    lib = ctypes.cdll.LoadLibrary(private_copy.name)",
+               "self._setup_library_function(lib)", "return self"]
+        if got != exp:
+            for i, (a, b) in enumerate(zip(got, exp)):
+                if a != b:
+                    _fail(f"load: statement {i} is {a!r}, modelled {b!r}")
+            _fail(f"load: {len(got)} statements, modelled {len(exp)}")
+    if save == "AtomicRename":
+        import copy
+        cn = strip_verbose(copy.deepcopy(_method(mod, "CompiledLogicNet", "compile")))
+        ast.fix_missing_locations(cn)
+        got = [ast.unparse(st) for st in cn.body if not (isinstance(st, ast.Expr) and isinstance(st.value, ast.Constant))]
+        exp = ["if self.model is None:\n    raise ValueError('This CompiledLogicNet was loaded from a library and has no model to compile.')",
+               "with tempfile.NamedTemporaryFile(suffix='.so') as lib_file:\n"
+               "    with tempfile.NamedTemporaryFile(mode='w', suffix='.c') as c_file:\n"
+               "        code = self.get_c_code()\n        c_file.write(code)\n        c_file.flush()\n        t_s = time.time()\n"
+               "        compiler_out = subprocess.run([self.cpu_compiler, '-shared', '-fPIC', f'-O{opt_level}', '-o', lib_file.name, c_file.name])\n"
+               "        if compiler_out.returncode != 0:\n            raise RuntimeError(f'compilation exited with error code {compiler_out.returncode}')\n"
+               "    if save_lib_path is not None:\n"
+               "        tmp_fd, tmp_save_path = tempfile.mkstemp(prefix=os.path.basename(save_lib_path) + '.tmp', dir=os.path.dirname(os.path.abspath(save_lib_path)))\n"
+               "        os.close(tmp_fd)\n        shutil.copy(lib_file.name, tmp_save_path)\n        os.replace(tmp_save_path, save_lib_path)\n"
+               "    lib = ctypes.cdll.LoadLibrary(lib_file.name)\n    self._setup_library_function(lib)"]
+        if got != exp:
+            for i, (a, b) in enumerate(zip(got, exp)):
+                if a != b:
+                    k = next((j for j in range(min(len(a), len(b))) if a[j] != b[j]), min(len(a), len(b)))
+                    _fail(f"compile: statement {i} differs from the modelled one at character {k}: ...{a[max(0, k - 60):k + 80]!r}")
+            _fail(f"compile: {len(got)} statements, modelled {len(exp)}")
+    # state shared by all instances (class attributes) is outside the process model, in which a handle's state is its own
+    for n in mod.body:
+        if isinstance(n, ast.ClassDef) and n.name == "CompiledLogicNet":
+            for st in n.body:
+                if isinstance(st, (ast.Assign, ast.AnnAssign, ast.AugAssign)):
+                    _fail("CompiledLogicNet has a class-level attribute (state shared by all instances): " + ast.unparse(st)[:80])
     passes_bits = "self = CompiledLogicNet(None, num_bits=num_bits)" in load
     sets_shape = "self.input_shape = input_shape" in load and "self.num_classes = num_classes" in load
     out = HEADER + "Inductive save_discipline := InPlace | AtomicRename.\nInductive load_discipline := ByPath | PrivateCopy.\n"
